@@ -23,10 +23,13 @@ Say(s) == /\ envlog' = Append(envlog, s)
           /\ PrintT(<<"SCN", ScnOpt, envlog'>>)
 Keep == UNCHANGED <<order, gated, nmsg>>
 
+\* the first connection, when it is gated, lingers: a transport send in flight when it goes away still succeeds once it
+\* is released ("connlinger" / "releasel" of the raw driver; RawSock LingerTake / LingerExit)
+Lingers(p) == p \in gated /\ Len(order) >= 1 /\ order[1] = p
 AutoXmitEnd(p) ==
   /\ txHold[p] # NULL /\ txHold[p].st = "tx"
-  /\ IF pclosed[p] THEN XmitEnd(p, FALSE) ELSE (p \notin gated /\ XmitEnd(p, TRUE))
-Busy == CanInternal \/ \E p \in Pipe : txHold[p] # NULL /\ txHold[p].st = "tx" /\ (pclosed[p] \/ p \notin gated)
+  /\ IF pclosed[p] /\ ~Lingers(p) THEN XmitEnd(p, FALSE) ELSE (p \notin gated /\ XmitEnd(p, TRUE))
+Busy == CanInternal \/ \E p \in Pipe : txHold[p] # NULL /\ txHold[p].st = "tx" /\ ((pclosed[p] /\ ~Lingers(p)) \/ p \notin gated)
 
 Internal ==
   /\ UNCHANGED <<envlog, order, gated, nmsg>>
@@ -34,7 +37,7 @@ Internal ==
           \/ \E r \in {"ok", "ErrClosed", "ErrNoPeers", "ErrSendTimeout"} : SendDone(t, r)
           \/ recvQ # <<>> /\ RecvTake(t, Head(recvQ))
           \/ \E r \in {"ErrClosed", "ErrRecvTimeout"} : RecvFail(t, r)
-     \/ \E p \in Pipe : SenderTake(p) \/ XmitStart(p) \/ AutoXmitEnd(p) \/ Requeue(p) \/ Push(p) \/ Abandon(p)
+     \/ \E p \in Pipe : SenderTake(p) \/ XmitStart(p) \/ AutoXmitEnd(p) \/ Requeue(p) \/ Push(p) \/ Abandon(p) \/ LingerTake(p) \/ LingerExit(p)
      \/ Schedule
 
 FreeThread == CHOOSE t \in Thread : call[t] = NULL
@@ -53,11 +56,11 @@ Env ==
              /\ order' = Append(order, p)
              /\ gated' = IF g THEN gated \cup {p} ELSE gated
              /\ UNCHANGED nmsg
-             /\ Say(IF g THEN "conngated" ELSE "conn")
+             /\ Say(IF g THEN (IF Len(order) = 0 THEN "connlinger" ELSE "conngated") ELSE "conn")
      \/ \E p \in pipes : RemovePipe(p) /\ Say("drop " \o PName(p)) /\ Keep
-     \/ \E p \in pipes \cap gated :
+     \/ \E p \in (pipes \cup {q \in Pipe : pclosed[q] /\ Lingers(q)}) \cap gated :
           /\ txHold[p] # NULL /\ txHold[p].st = "tx"
-          /\ XmitEnd(p, TRUE) /\ Say("release " \o PName(p)) /\ Keep
+          /\ XmitEnd(p, TRUE) /\ Say((IF pclosed[p] THEN "releasel " ELSE "release ") \o PName(p)) /\ Keep
      \/ /\ nmsg < MaxMsg /\ \E t \in Thread : call[t] = NULL
         /\ nmsg' = nmsg + 1 /\ UNCHANGED <<order, gated>>
         /\ \/ /\ SendKind # "routed"
